@@ -206,6 +206,18 @@ pub fn run() -> i32 {
                 }
             }
         }
+        for is_map in 0..2u8 {
+            for nn in 0..=3u8 {
+                for bad in [0u8, 1, 2, 3, 4, 5, 255] {
+                    crate::sym::load(vec![vec![is_map], vec![nn], vec![bad]]);
+                    n += 1;
+                    if std::panic::catch_unwind(|| crate::node::c07_literal()).is_err() {
+                        c11_bad += 1;
+                        eprintln!("SELFTEST-FAIL: c07_literal reference disagrees with the evaluator: map={} n={} bad={}", is_map, nn, bad);
+                    }
+                }
+            }
+        }
         // call nodes
         for nargs in 0..=3u8 {
             for bits in 0..8u8 {
